@@ -65,7 +65,10 @@ func Mount(source, target, fstype, options string) error {
 		// Vinculae daemonis systematis frangere!
 		if source == "/dev" || source == "/sys" || source == "/run" {
 			flags = syscall.MS_SLAVE | syscall.MS_REC
-			err = SyscallMount("", target, "", flags, options)
+			err = verifPoint("mount-propagation", target)
+			if err == nil {
+				err = SyscallMount("", target, "", flags, options)
+			}
 			if err != nil {
 				return fmt.Errorf("Cannot change propagation type of mount %s: %s",
 					target, err)
